@@ -704,7 +704,9 @@ def schema_pickle_path(rt, cache, sid, spec):
 
 def load_schema(rt, cache, sid, spec, build=True):
     import pickle
-    path = schema_pickle_path(rt, cache, sid, spec)
+    # the driver fixes the pickle of a run once (spec['pickle']), so that a concurrent change of the tree
+    # cannot make the workers of one run use different schema objects
+    path = spec.get('pickle') or schema_pickle_path(rt, cache, sid, {k: v for k, v in spec.items() if k != 'pickle'})
     if os.path.exists(path):
         try:
             with open(path, 'rb') as f:
@@ -1321,21 +1323,26 @@ class Abstractor:
 # (irast.TypeRef hashes its id; derived types get uuid1mc() ids).  In mode D the hash of an AST node is
 # the number of nodes hashed before it since the last reset, and uuid1mc()/uuid4() count up.
 
-_DET = {'h': {}, 'u': 0, 'on': False}
+_DET = {'n': 0, 'u': 0, 'on': False, 'fork': False}
 
 
-def det_install():
+def det_install(fork):
+    """fork=True : every compilation runs in its own fork of a parent that compiled only a fixed warm-up list
+                   (history-free; expensive).
+       fork=False: in-process; every statement is compiled three times -- the first fills the per-process caches,
+                   the counters are reset, and the second and third are compared (cheap; its outputs depend on the
+                   worker's history, so runs are compared only when they processed identical line lists)"""
     from edb.common.ast import base as astbase
     from edb.common import uuidgen
     import uuid as _uuid
 
     def det_hash(self):
-        k = id(self)
-        e = _DET['h'].get(k)
-        if e is None or e[1] is not self:
-            e = (len(_DET['h']) + 1, self)      # keeps the node alive: no id reuse before the reset
-            _DET['h'][k] = e
-        return e[0]
+        d = self.__dict__
+        h = d.get('_c13h')
+        if h is None:                # stable for the object's lifetime (hash/eq contract)
+            _DET['n'] += 1
+            h = d['_c13h'] = _DET['n']
+        return h
 
     def det_uuid():
         _DET['u'] += 1
@@ -1344,19 +1351,21 @@ def det_install():
     uuidgen.uuid1mc = det_uuid
     uuidgen.uuid4 = det_uuid
     _DET['on'] = True
+    _DET['fork'] = fork
 
 
 def det_reset():
-    """nothing to reset: in mode D every compilation runs in a fresh fork (run_line_forked), so the counters
-    start from the same values; hashes stay stable for an object's lifetime (hash/eq contract)"""
-    return
+    """in-process mode D: the counters restart before every compilation"""
+    if _DET['on'] and not _DET['fork']:
+        _DET['n'] = 0
+        _DET['u'] = 0
 
 
 class Worker:
     def __init__(self, repo, spec):
         self.rt = setup(repo)
-        if os.environ.get('C13_DET') == '1':
-            det_install()
+        if os.environ.get('C13_DET') in ('1', '2'):
+            det_install(fork=os.environ.get('C13_DET') == '2')
         self.spec = spec
         self.cache = spec['cache']
         self.schemas = {}
@@ -1431,6 +1440,8 @@ class Worker:
 
     def run_tree(self, sid, fmt, text, double=True):
         schema, catalog = self.schema(sid)
+        if double and _DET['on'] and not _DET['fork']:
+            self.compile_tree(schema, text, fmt)          # fills the caches; the next two are compared
         res, sql, ir, params = self.compile_tree(schema, text, fmt)
         rows = self.argmap_rows(res.argmap, params)
         out = {'st': 'ok', 'mon': [], 'sql': sql}
@@ -1518,6 +1529,8 @@ class Worker:
     def run_server(self, sid, text, double=True):
         schema, catalog = self.schema(sid)
         out = {'st': 'ok', 'mon': []}
+        if double and _DET['on'] and not _DET['fork']:
+            self.compile_server(schema, text)
         units, captured = self.compile_server(schema, text)
         o = [self.unit_obs(u) for u in units]
         if double:
@@ -1711,7 +1724,7 @@ def child_main(repo, specpath):
         if not line:
             print(json.dumps({'st': 'bad-line'}), flush=True)
             continue
-        if _DET['on']:
+        if _DET['on'] and _DET['fork']:
             print(json.dumps(w.run_line_forked(line)), flush=True)
         else:
             print(json.dumps(w.run_line(line)), flush=True)
@@ -1777,9 +1790,12 @@ def main():
         spec = json.load(open(sys.argv[3]))
         rt = setup(repo)
         import glob
+        paths = {}
         for sid, s in spec['schemas'].items():
+            s = {k: v for k, v in s.items() if k != 'pickle'}
             load_schema(rt, spec['cache'], sid, s)
             keep = schema_pickle_path(rt, spec['cache'], sid, s)
+            paths[sid] = keep
             for old in glob.glob(os.path.join(spec['cache'], f'schema-{sid}-*.pickle')):
                 if old != keep:          # built for another std-schema key / SDL text
                     try:
@@ -1788,6 +1804,7 @@ def main():
                         pass
         if spec.get('server'):
             rt['vrt'].reflection_schema()
+        print(json.dumps(paths))
         print('ok')
         return
     if len(sys.argv) > 3 and sys.argv[2] == '--child':
